@@ -112,6 +112,52 @@ def gen_shape(rnd, leaves, depth):
     return {'seq': kids}
 
 
+
+# ---------------------------------------------------------------- named instance == unnamed instance (every nameable process)
+def nameable_classes():
+    import epydemic as ep
+    return {'SIR': ep.SIR, 'SIS': ep.SIS, 'SIRS': ep.SIRS, 'SIR_FixedRecovery': ep.SIR_FixedRecovery, 'SIS_FixedRecovery': ep.SIS_FixedRecovery,
+            'SIR_VariableInfection': ep.SIR_VariableInfection, 'SIvR': ep.SIvR, 'Opinion': ep.Opinion, 'Vaccinate': ep.Vaccinate,
+            'AddDelete': ep.AddDelete, 'PulseCoupledOscillator': ep.PulseCoupledOscillator}
+
+
+def probe_params(cls_name, vals):
+    """plain-name parameters of the class from a list of values"""
+    import epydemic as ep
+    if cls_name == 'AddDelete':
+        return {ep.AddDelete.P_ADD: vals[0], ep.AddDelete.P_DELETE: vals[1], ep.AddDelete.DEGREE: int(vals[2] * 4)}
+    if cls_name == 'PulseCoupledOscillator':
+        P = ep.PulseCoupledOscillator
+        return {P.PERIOD: 0.5 + vals[0], P.B: 1.0 + vals[1], P.COUPLING: vals[2]}
+    pv = {'pSeed': 0.5, 'pInfect': vals[0], 'pRemove': vals[1], 'pAux': vals[2], 'pSym': vals[1], 'tInf': 0.5 + vals[2], 'eff': vals[0], 'off': vals[1]}
+    return compart.params_for(cls_name, pv)
+
+
+def probe_record(cls_name, inst, params):
+    """what build / setUp made of the parameters: event tables, initial occupancies, numeric private fields"""
+    import epydemic as ep
+    cls = nameable_classes()[cls_name]
+    p = cls(inst) if inst is not None else cls()
+    dyn = ep.StochasticDynamics(p, networkx.path_graph(4))
+    install(Oracle(seed=11))
+    try:
+        dyn.setUp(dict(params))
+    except Exception as e:
+        return {'raised': type(e).__name__ + ': ' + str(e)[:120]}
+    und = p.undecoratedName
+    rec = {'raised': None,
+           'elem': [(und(l.name()), pr, getattr(ef, '__name__', '?'), name) for (l, pr, ef, name) in getattr(p, '_perElementEvents', [])],
+           'fixed': [(und(l.name()), pr, getattr(ef, '__name__', '?'), name) for (l, pr, ef, name) in getattr(p, '_perLocusEvents', [])],
+           'occupancy': sorted(getattr(p, '_compartments', {}).items()),
+           'fields': sorted((k, v) for k, v in vars(p).items() if k.startswith('_') and isinstance(v, (int, float)) and not isinstance(v, bool)
+                            and k not in ('_runId', '_maxTime', '_uniqueId'))}
+    try:
+        dyn.tearDown()
+    except Exception:
+        pass
+    return rec
+
+
 class H(Harness):
     ID = 'C11'
     ANCHOR_FILES = ['epydemic/processsequence.py', 'epydemic/process.py', 'epydemic/networkdynamics.py', 'epydemic/compartmentedmodel.py', 'epydemic/monitor.py', 'epydemic/statistics.py']
@@ -136,7 +182,15 @@ class H(Harness):
 
     # ------------------------------------------------------------- generation
     def gen_cases(self, tier, rnd, n):
-        return [self.gen_case(rnd) for _ in range(n)]
+        out = [self.gen_case(rnd) for _ in range(n)]
+        # every process class that takes an instance name: a named instance given its parameters under decorated names
+        # (other values under the plain ones) is built exactly like an unnamed one given them under the plain names
+        names = sorted(nameable_classes())
+        for k in range(max(22, n // 8)):
+            out.append({'kind': 'named_probe', 'cls': names[k % len(names)], 'inst': rnd.choice(['zz', 'a', 'x.1']),
+                        'vals': [rnd.choice([0.0, 0.125, 0.25, 0.5, 0.75, 1.0]) for _ in range(3)], 'seed': k,
+                        'tree': {'leaf': {'id': 0, 'type': 'probe', 'inst': None, 'maxtime': 1.0}}, 'dynamics': 'stochastic'})
+        return out
 
     def gen_case(self, rnd):
         dynamics = rnd.choice(['stochastic', 'synchronous'])
@@ -235,6 +289,19 @@ class H(Harness):
 
     # ------------------------------------------------------------- execution
     def execute(self, case):
+        if case.get('kind') == 'named_probe':
+            plain = probe_params(case['cls'], case['vals'])
+            named = {k + '@' + case['inst']: v for k, v in plain.items()}
+            for k, v in plain.items():
+                named[k] = 0.8125 if v != 0.8125 else 0.4375          # the plain names carry somebody else's values
+            if case['cls'] == 'AddDelete':
+                import epydemic as ep
+                named[ep.AddDelete.DEGREE] = 3
+            return {'unnamed': probe_record(case['cls'], None, plain), 'named': probe_record(case['cls'], case['inst'], named),
+                    'exception': None, 'events': [], 'complete': False}
+        return self._execute(case)
+
+    def _execute(self, case):
         import epyc
         import epydemic as ep
         import epydemic.stochasticdynamics as sd
@@ -354,6 +421,18 @@ class H(Harness):
                     for x in p.fixedRateEventDistribution(t):
                         mine.append(('F', lkey(x[0]), x[1], fkey(x[2]), x[3]))
                         reg[(lkey(x[0]), fkey(x[2]), x[3])] = l['id']
+            # the same for the PROBABILITY distributions, which synchronous dynamics draws its trials from
+            mine_p, theirs_p = [], []
+            for l in leaves:
+                p = objs[l['id']]
+                if hasattr(p, '_perElementEvents'):
+                    mine_p += [('E', lkey(x[0]), x[1], fkey(x[2]), x[3]) for x in p.perElementEventDistribution(t)]
+            for l in leaves:
+                p = objs[l['id']]
+                if hasattr(p, '_perLocusEvents'):
+                    mine_p += [('F', lkey(x[0]), x[1], fkey(x[2]), x[3]) for x in p.fixedRateEventDistribution(t)]
+            theirs_p += [('E', lkey(x[0]), x[1], fkey(x[2]), x[3]) for x in dyn.perElementEventDistribution(t)]
+            theirs_p += [('F', lkey(x[0]), x[1], fkey(x[2]), x[3]) for x in dyn.fixedRateEventDistribution(t)]
             npe = len(dyn.perElementEventRateDistribution(t))
             theirs = [('E' if i < npe else 'F', lkey(x[0]), x[1], fkey(x[2]), x[3]) for i, x in enumerate(dist)]
             attrs_now = state()[0]
@@ -369,7 +448,7 @@ class H(Harness):
                                    'used': sorted(x[1] for x in p.perElementEventDistribution(t) if x[3] == ep.SIR.INFECTED)}
             obs['snaps'].append({'t': t, 'sizes': [len(l) for l in dyn.loci().values()], 'extra': extra, 'vi': vi,
                                  'dist': [[reg.get((lkey(x[0]), fkey(x[2]), x[3]), lid.get(id(x[0].process()), -1)), x[3], x[1]] for x in dist],
-                                 'union_ok': sorted(mine, key=repr) == sorted(theirs, key=repr), 'same_order': mine == theirs})
+                                 'union_ok': sorted(mine, key=repr) == sorted(theirs, key=repr) and sorted(mine_p, key=repr) == sorted(theirs_p, key=repr), 'same_order': mine == theirs})
 
         def started(params_):
             obs['built'] = True
@@ -514,6 +593,20 @@ class H(Harness):
         return []
 
     def direct(self, case, obs):
+        if case.get('kind') == 'named_probe':
+            a, b = obs['unnamed'], obs['named']
+            if a['raised']:
+                return []                     # not a legal parameter point for this class
+            if b['raised']:
+                return [{'signature': 'named-instance-does-not-build-from-its-decorated-parameters:' + case['cls'], 'detail': b['raised']}]
+            diff = [k for k in ('elem', 'fixed', 'occupancy', 'fields') if a[k] != b[k]]
+            if diff:
+                return [{'signature': 'named-instance-not-built-from-its-own-parameters:%s:%s' % (case['cls'], ','.join(diff)),
+                         'detail': {k: [a[k], b[k]] for k in diff}}]
+            return []
+        return self._direct(case, obs)
+
+    def _direct(self, case, obs):
         v = []
         leaves = leaves_of(case['tree'])
         given = dict(obs['given'])
@@ -669,6 +762,11 @@ class H(Harness):
 
     # ------------------------------------------------------------- Coq
     def to_coq(self, case, obs):
+        if case.get('kind') == 'named_probe':
+            return None
+        return self._to_coq(case, obs)
+
+    def _to_coq(self, case, obs):
         tabs = static_tables()
         S = L.string
 
@@ -773,6 +871,11 @@ class H(Harness):
             L.lst(['(%s, %s)' % (S(a), S(b)) for a, b in obs['undecorated']]), L.lst(events, event))
 
     def nontrivial(self, case, obs):
+        if case.get('kind') == 'named_probe':
+            return None
+        return self._nontrivial(case, obs)
+
+    def _nontrivial(self, case, obs):
         leaves = leaves_of(case['tree'])
         if len(leaves) < 2 or not obs.get('events'):
             return None
@@ -785,6 +888,11 @@ class H(Harness):
         return None
 
     def sample_view(self, case, obs):
+        if case.get('kind') == 'named_probe':
+            return {'case': case}
+        return self._sample_view(case, obs)
+
+    def _sample_view(self, case, obs):
         return {'tree': case['tree'], 'dynamics': case['dynamics'], 'parameters': obs.get('given'), 'allProcesses': obs.get('all'),
                 'registry': obs.get('loci'), 'first_events': obs.get('events', [])[:6], 'results_keys': [k for k, _ in (obs.get('results') or [])],
                 'exception': obs.get('exception')}
